@@ -72,9 +72,20 @@ def vo_path(v):
     return Path(str(v)[:-2] + ".vo")
 
 
+def load_scaled(timeout):
+    """Time limits are stated for an idle 16-core machine; on a loaded one (other checks, agents, test suites) the same
+    coqc run takes proportionally longer, and a limit hit because of load must not look like a broken proof or tie."""
+    try:
+        f = os.getloadavg()[0] / max(1, ncores())
+    except OSError:
+        f = 1.0
+    return int(timeout * min(8.0, max(1.0, 2.0 * f)))
+
+
 def coqc(path, timeout=600, extra=None):
     """Compile one file.  Returns dict(ok, out, secs, failed_lemma)."""
     path = Path(path)
+    timeout = load_scaled(timeout)
     t0 = time.time()
     cmd = ["timeout", str(int(timeout)), "coqc"] + COQFLAGS + (extra or []) + [str(path)]
     p = subprocess.run(cmd, capture_output=True, text=True, cwd=str(COQ))
@@ -175,6 +186,7 @@ def eval_cases(imports, exprs, name, shard=400, timeout=240, workdir=None):
     delimited by marker lines so wrapped output is re-joined safely."""
     workdir = Path(workdir or (COQ / "cases"))
     workdir.mkdir(parents=True, exist_ok=True)
+    timeout = load_scaled(timeout)
     shards = [exprs[i:i + shard] for i in range(0, len(exprs), shard)]
 
     def run(k):
